@@ -25,11 +25,45 @@ class BookEngine:
             extra(tier, seed, verdict, workdir, cov)
         return cov, BOOK_ASSUMPTIONS + spec.get("assumptions", [])
 
+    def extra_C07(self, tier, seed, verdict, workdir, cov):
+        """Truncation clause: every strict prefix of a written snapshot file must be rejected with an error."""
+        import concurrent.futures as cf
+        import subprocess
+        shards = 8 if tier == "quick" else 16
+        per = 2 if tier == "quick" else 14
+
+        def one(i):
+            env = C.env_offline()
+            env["VERIF_SCRATCH"] = f"{workdir}/trunc{i}"
+            p = subprocess.run([C.DRIVE, "trunc", "--seed", str(seed * 100 + i), "--hists", str(per), "--ops", "25"],
+                               stdout=subprocess.PIPE, stderr=subprocess.PIPE, text=True, env=env)
+            return p.returncode, p.stdout, i
+        files = offsets = 0
+        bad = []
+        with cf.ThreadPoolExecutor(max_workers=16) as ex:
+            for rc, out, i in ex.map(one, range(shards)):
+                if rc != 0:
+                    bad.append((i, "harness crashed"))
+                for line in out.splitlines():
+                    t = line.split()
+                    if t and t[0] == "T":
+                        files += 1
+                        offsets += int(t[2].split("=")[1])
+                        if t[4] != "ok":
+                            bad.append((i, line))
+        cov["truncation_files"] = files
+        cov["truncation_offsets_tried"] = offsets
+        cov["truncation_exhaustive_per_file"] = True
+        for i, line in bad[:2]:
+            verdict.violation({"kind": "impl-violates-property", "obligation": "A(C07): truncated snapshot must be rejected",
+                               "how": f"drive trunc --seed {seed * 100 + i} --hists {per} --ops 25", "line": line},
+                              f"a truncated snapshot file was loaded or aborted the process: {line}")
+
     def replay(self, prop, path):
         return book.replay(prop, path, book.SPECS[prop])
 
 
 ENGINES = {}
 _b = BookEngine()
-for p in ("C01", "C02", "C03", "C04", "C05", "C06", "C07", "C12", "C13"):
+for p in ("C01", "C02", "C03", "C04", "C05", "C06", "C07", "C08", "C10", "C11", "C12", "C13", "C14", "C15"):
     ENGINES[p] = _b
